@@ -28,6 +28,10 @@ HasInj(v) == v \in {"okA", "okA2", "okB", "bad", "typeerr", "tagbad"}
 Generates(v) == v \in {"okA", "okA2", "okB"}
 
 Headers  == {"none", "ok", "unreadable"}
+\* diff only: a readable header file that is not comment text - the output cannot be formatted, so nothing can be compared
+\* (gen with such a header reports the failure AND writes the unformattable file, after which the package no longer loads:
+\* that state is outside the properties and is not modelled, so gen never gets this header here)
+DiffHeaders == Headers \cup {"notgo"}
 Tags     == {"", "extra more"}        \* none, or two extra build tags in wire's space-separated form
 \* the variant a package presents to a command run with the tags tg
 Eff(v, tg) == IF v = "tagbad" THEN (IF tg = "" THEN "okA" ELSE "bad") ELSE v
@@ -110,6 +114,7 @@ Gen(P, hdr, x, tg, form) ==
 (* ---- wire diff / check / show: read-only ----------------------------------- *)
 DiffExit(P, hdr, tg) ==
   IF hdr = "unreadable" \/ LoadFails(P) \/ SomeBad(P, tg) THEN 2
+  ELSE IF hdr = "notgo" /\ \E p \in P : Generates(Eff(src[p], tg)) THEN 2
   ELSE IF \E p \in P : Generates(Eff(src[p], tg)) /\ disk[<<p, "std">>] # Fresh(Eff(src[p], tg), hdr, tg) THEN 1
   ELSE 0
 \* per package: what diff finds there (recorded so that replay samples can be stratified by it)
@@ -131,10 +136,10 @@ Next ==
      \/ \E p \in Pkgs, x \in Prefixes : DeleteOut(p, x)
      \/ \E p \in Pkgs, x \in Prefixes, c \in Junk : Clobber(p, x, c)
      \/ \E P \in NonEmpty(Pkgs), hdr \in Headers, x \in Prefixes, tg \in Tags, form \in {"gen", "default"} : Gen(P, hdr, x, tg, form)
-     \/ \E P \in NonEmpty(Pkgs), hdr \in Headers, tg \in Tags : Diff(P, hdr, tg)
+     \/ \E P \in NonEmpty(Pkgs), hdr \in DiffHeaders, tg \in Tags : Diff(P, hdr, tg)
      \/ \E P \in NonEmpty(Pkgs), tg \in Tags : Check(P, tg)
      \/ \E P \in NonEmpty(Pkgs), tg \in Tags : Show(P, tg)
-NextDiff == (MaxHist = 0 \/ Len(hist) < MaxHist) /\ \E P \in NonEmpty(Pkgs), hdr \in Headers, tg \in Tags : Diff(P, hdr, tg)
+NextDiff == (MaxHist = 0 \/ Len(hist) < MaxHist) /\ \E P \in NonEmpty(Pkgs), hdr \in DiffHeaders, tg \in Tags : Diff(P, hdr, tg)
 NextGen  == (MaxHist = 0 \/ Len(hist) < MaxHist) /\ \E P \in NonEmpty(Pkgs), hdr \in Headers, x \in Prefixes, tg \in Tags : Gen(P, hdr, x, tg, "gen")
 NextCheck == (MaxHist = 0 \/ Len(hist) < MaxHist) /\ \E P \in NonEmpty(Pkgs), tg \in Tags : Check(P, tg) \/ Show(P, tg)
 \* gen immediately followed by the matching diff (C18's last clause), from every focused state
@@ -164,10 +169,14 @@ Isolation == [][IsGen /\ last'.args.header # "unreadable" /\ ~LoadFails(last'.ar
                     disk'[<<p, last'.args.prefix>>] = Fresh(Eff(src[p], last'.args.tags), last'.args.header, last'.args.tags)]_vars
 \* C17: diff status
 DiffStatus == [][last'.cmd = "diff" =>
-                  LET P == last'.args.pkgs IN
-                  /\ last'.exit = 2 <=> (last'.args.header = "unreadable" \/ \E p \in P : Eff(src[p], last'.args.tags) \in {"bad", "typeerr"})
-                  /\ last'.exit = 0 => \A p \in P : Generates(Eff(src[p], last'.args.tags)) =>
-                                          disk[<<p, "std">>] = Fresh(Eff(src[p], last'.args.tags), last'.args.header, last'.args.tags)]_vars
+                  LET P == last'.args.pkgs
+                      tg == last'.args.tags
+                      cannot == (last'.args.header = "unreadable")
+                                \/ (\E p \in P : Eff(src[p], tg) \in {"bad", "typeerr"})
+                                \/ (last'.args.header = "notgo" /\ (\E p \in P : Generates(Eff(src[p], tg))))
+                  IN /\ (last'.exit = 2) <=> cannot
+                     /\ (last'.exit = 0) => (\A p \in P : Generates(Eff(src[p], tg)) =>
+                                               disk[<<p, "std">>] = Fresh(Eff(src[p], tg), last'.args.header, tg))]_vars
 \* C18: after a successful gen the file is what a fresh checkout would get - whatever the state (hence the history) was
 Regen == [][IsGen /\ last'.exit = 0 =>
              \A p \in last'.args.pkgs : Generates(Eff(src[p], last'.args.tags)) =>
